@@ -129,6 +129,96 @@ pub fn dyn_value_types() -> Vec<Type> {
     v
 }
 
+
+// ------------------------------------------------------------------------------------------------
+// the zero-length "empty" value in the matrix
+
+/// Which column types admit the special empty value. The book is silent; the crate's documentation of it is the
+/// public predicate `ColumnType::supports_special_empty_value` ("Returns true if the type allows a special, empty
+/// value ... we only check against Scylla's set"), the `NotEmptyable` error kind ("Expected a type that can be
+/// empty") and `MaybeEmpty` ("produce an empty value (0 bytes) for emptiable types"). Pinned here: counter,
+/// duration, list, set, map and UDT do not admit it (binding `Empty` must be refused); every other native type
+/// does (must be accepted); tuple and vector are left undetermined.
+pub fn empty_rel(t: &Type) -> Rel {
+    match t {
+        Type::Native(Native::Counter) | Type::Native(Native::Duration) => Rel::Reject,
+        Type::Native(_) => Rel::Accept,
+        Type::List(_) | Type::Set(_) | Type::Map(..) | Type::Udt { .. } => Rel::Reject,
+        Type::Tuple(_) | Type::Vector(..) => Rel::DontCare,
+    }
+}
+
+fn empty_cells(r: &Report, t: &Type, st: &[AtomicU64; 3]) {
+    use scylla_cql_core::value::MaybeEmpty;
+    let rel = empty_rel(t);
+    let int = t_int();
+    // (where the empty value sits, the column type, the bound value)
+    let mut probes: Vec<(&'static str, Type, CqlValue)> = vec![("top", t.clone(), CqlValue::Empty)];
+    if t.depth() <= 1 {
+        probes.push(("list-element", Type::List(Box::new(t.clone())), CqlValue::List(vec![CqlValue::Empty])));
+        probes.push(("set-element", Type::Set(Box::new(t.clone())), CqlValue::Set(vec![CqlValue::Empty])));
+        probes.push(("map-value", Type::Map(Box::new(int.clone()), Box::new(t.clone())), CqlValue::Map(vec![(CqlValue::Int(1), CqlValue::Empty)])));
+        probes.push(("map-key", Type::Map(Box::new(t.clone()), Box::new(int.clone())), CqlValue::Map(vec![(CqlValue::Empty, CqlValue::Int(1))])));
+        probes.push(("tuple-field", Type::Tuple(vec![int.clone(), t.clone()]), CqlValue::Tuple(vec![Some(CqlValue::Int(1)), Some(CqlValue::Empty)])));
+        let u = types::udt(vec![int.clone(), t.clone()]);
+        probes.push(("udt-field", u, CqlValue::UserDefinedType { keyspace: "ks".into(), name: "u2".into(), fields: vec![("a".into(), Some(CqlValue::Int(1))), ("b".into(), Some(CqlValue::Empty))] }));
+    }
+    for (site, col, val) in probes {
+        r.eval(1);
+        let ct = column_type(&col);
+        let p = probe_value(&val, &ct);
+        let case = || json!({"leg": "matrix", "part": "empty", "site": site, "type": t.to_string(), "frozen": frozen_mode()});
+        if let Some(c) = &p.corrupt {
+            r.violation(&format!("matrix-empty:list-corrupted:{site}"), &format!("CqlValue::Empty as {site} of {col}: {c}"), case());
+            continue;
+        }
+        if let Some(pn) = &p.panic {
+            r.violation(&format!("matrix-empty:panic:{site}"), &format!("CqlValue::Empty as {site} of {col} panicked: {pn}"), case());
+            continue;
+        }
+        match (rel, p.accepted) {
+            (Rel::Reject, true) => r.violation(
+                &format!("matrix-empty:accepted-for-non-emptyable:{site}:{}", t.shape().split('<').next().unwrap_or("")),
+                &format!("CqlValue::Empty ({site}) was accepted for {t}, a type that does not admit the empty value: a zero-length cell is sent"),
+                case(),
+            ),
+            (Rel::Accept, false) => r.violation(&format!("matrix-empty:refused-for-emptyable:{site}:{}", t.shape()), &format!("CqlValue::Empty ({site}) refused for {t}: {}", p.err), case()),
+            (_, false) => {
+                if !p.state_intact {
+                    r.violation(&format!("matrix-empty:reject-left-bytes:{site}"), &format!("CqlValue::Empty ({site}) refused for {col} but the value list changed"), case());
+                } else if rel == Rel::Reject && p.root != "typecheck" {
+                    r.violation(&format!("matrix-empty:error-kind:{site}"), &format!("CqlValue::Empty ({site}) for {t} refused with a {} error, not a type-check error: {}", p.root, p.err), case());
+                } else {
+                    st[1].fetch_add(1, Ordering::Relaxed);
+                }
+            }
+            (_, true) => {
+                if !p.grew_by_one {
+                    r.violation(&format!("matrix-empty:accept-bookkeeping:{site}"), &format!("CqlValue::Empty ({site}) accepted for {col} but the list did not grow by one cell"), case());
+                } else {
+                    st[if rel == Rel::Accept { 0 } else { 2 }].fetch_add(1, Ordering::Relaxed);
+                }
+            }
+        }
+    }
+    // MaybeEmpty::Empty of a carrier: must be refused wherever the type does not admit empty (otherwise undetermined:
+    // no bytes of the carrier reach the wire)
+    if rel == Rel::Reject {
+        r.eval(1);
+        let ct = column_type(t);
+        let p = probe_value(&MaybeEmpty::<i32>::Empty, &ct);
+        if p.accepted || p.panic.is_some() || p.corrupt.is_some() || !p.state_intact {
+            r.violation(
+                &format!("matrix-empty:MaybeEmpty-accepted-for-non-emptyable:{}", t.shape().split('<').next().unwrap_or("")),
+                &format!("MaybeEmpty::<i32>::Empty bound to {t}: accepted={}, state intact={}, panic={:?}", p.accepted, p.state_intact, p.panic),
+                json!({"leg": "matrix", "part": "empty", "site": "MaybeEmpty", "type": t.to_string(), "frozen": frozen_mode()}),
+            );
+        } else {
+            st[1].fetch_add(1, Ordering::Relaxed);
+        }
+    }
+}
+
 struct MatrixStats {
     cells: [[AtomicU64; 4]; 3], // [rel][outcome: accepted, rejected-typecheck, rejected-other, n/a]
     de_cells: [[AtomicU64; 2]; 3],
@@ -260,6 +350,7 @@ pub fn run_matrix(r: &Report) {
     let st = MatrixStats { cells: Default::default(), de_cells: Default::default() };
     let n_types = AtomicU64::new(0);
     let n_variants = AtomicU64::new(0);
+    let empty_stats: [AtomicU64; 3] = Default::default();
     let do_type = |t: &Type| {
         n_types.fetch_add(1, Ordering::Relaxed);
         // the frozen flag of collections/UDTs must not matter: full matrix with nothing frozen and with everything
@@ -268,6 +359,7 @@ pub fn run_matrix(r: &Report) {
             with_frozen(mode, || {
                 let ct = column_type(t);
                 n_variants.fetch_add(1, Ordering::Relaxed);
+                empty_cells(r, t, &empty_stats);
                 for (i, e) in entries.iter().enumerate() {
                     if mode == 2 && (e.rel_ser)(t) != Rel::Accept && e.rel_de.map(|f| f(t)) != Some(Rel::Accept) {
                         continue;
@@ -318,7 +410,18 @@ pub fn run_matrix(r: &Report) {
     r.counters.add("carriers_dynamic_shapes", dyn_vts.len() as u64);
     r.counters.add("column_types", n_types.load(Ordering::Relaxed));
     r.counters.add("column_type_frozen_variants", n_variants.load(Ordering::Relaxed));
-    r.set_rule("E-ENUM full matrix. Rows: every static carrier of the C01 table (795: 31 owned bases x wrappers, borrowed carriers, secrecy, CqlValue inside static wrappers) and the dynamic value type shaped as each of ~110 value types. Columns: 20 natives, all depth-1 types (list/set/vector/map/tuple/UDT over all natives), depth-2 types (quick: constructors over the depth-1 types of int/text/blob/boolean + every carrier's documented depth-2 types; thorough: over every depth-1 type). Every column type is used with its collections/UDTs non-frozen and all frozen (full rows; in quick the all-frozen variant of depth-2 types is limited to cells the relation does not call Reject), and nested-only frozen (Accept cells): the relation does not depend on the flag. Each cell: serialize a witness with content at every level after one bound value + (static carriers) deserialize type_check, judged against the three-valued relation Accept (documented pair) / Reject (wire shapes differ) / DontCare. distinct_nontrivial = cells decided by the relation (Accept accepted + Reject refused), ser and de.");
+    r.counters.add("empty_cells_emptyable_accepted", empty_stats[0].load(Ordering::Relaxed));
+    r.counters.add("empty_cells_refused", empty_stats[1].load(Ordering::Relaxed));
+    r.counters.add("empty_cells_undetermined_accepted", empty_stats[2].load(Ordering::Relaxed));
+    // the crate's public predicate must agree with the pinned table
+    for t in types::natives().iter().chain(types::depth1().iter()) {
+        let want = empty_rel(t);
+        let got = column_type(t).supports_special_empty_value();
+        if (want == Rel::Reject && got) || (want == Rel::Accept && !got) {
+            r.violation("matrix-empty:predicate-disagrees", &format!("ColumnType::supports_special_empty_value() = {got} for {t}"), json!({"leg": "matrix", "part": "empty", "site": "top", "type": t.to_string(), "frozen": 0}));
+        }
+    }
+    r.set_rule("E-ENUM full matrix. Rows: every static carrier of the C01 table (795: 31 owned bases x wrappers, borrowed carriers, secrecy, CqlValue inside static wrappers) and the dynamic value type shaped as each of ~110 value types. Columns: 20 natives, all depth-1 types (list/set/vector/map/tuple/UDT over all natives), depth-2 types (quick: constructors over the depth-1 types of int/text/blob/boolean + every carrier's documented depth-2 types; thorough: over every depth-1 type). Every column type is used with its collections/UDTs non-frozen and all frozen (full rows; in quick the all-frozen variant of depth-2 types is limited to cells the relation does not call Reject), and nested-only frozen (Accept cells): the relation does not depend on the flag. The empty value: CqlValue::Empty at top level and (column types of depth <= 1) as list/set element, map key/value, tuple field and UDT field, and MaybeEmpty::<i32>::Empty, against the pinned table (counter, duration, list, set, map, UDT: must be refused with a type-check error and leave the list intact; other natives: must be accepted; tuple/vector: undetermined). Each cell: serialize a witness with content at every level after one bound value + (static carriers) deserialize type_check, judged against the three-valued relation Accept (documented pair) / Reject (wire shapes differ) / DontCare. distinct_nontrivial = cells decided by the relation (Accept accepted + Reject refused), ser and de.");
     r.set_exhaustive(true);
     r.assume("Accept = pairs listed in docs/source/data-types (nested structurally, incl. Box/Arc/Cow/Option/MaybeUnset/MaybeEmpty/secrecy wrappers); Reject = different native type (ascii/text interchangeable), sequence vs map vs tuple vs UDT vs vector, vector dimension mismatch, Rust tuple longer than the CQL tuple, UDT of another name or with a field the column type lacks, or any component pair that is Reject; everything else (set-like carrier on a list column, shorter Rust tuple, zero-dimensional vectors, list value on a 1-dimensional vector...) is DontCare");
     r.assume("witness values are non-null and non-empty at every level: null / empty collections carry no element bytes and are accepted for any element type (not a mismatch on the wire)");
@@ -1225,8 +1328,118 @@ fn run_row_decode_matrix(r: &Report) {
     r.nontrivial(outcomes[0].load(Ordering::Relaxed) + outcomes[1].load(Ordering::Relaxed));
 }
 
+/// Named-value rows against column lists with repeated names: BTreeMap / HashMap with String and &str keys; key sets
+/// {exact, one surplus key, one missing key}. Surplus or missing keys must be refused; an accepted row carries the
+/// value at every occurrence of its name.
+fn run_named_rows(r: &Report) {
+    let names = ["x", "y", "z"];
+    let name_types = [t_int(), t_text(), list_of(t_int())];
+    let name_vals: [RowCell; 3] = [
+        MaybeUnset::Set(Some(CqlValue::Int(7))),
+        MaybeUnset::Set(Some(CqlValue::Text("ab".into()))),
+        MaybeUnset::Set(Some(CqlValue::List(vec![CqlValue::Int(1), CqlValue::Int(2)]))),
+    ];
+    let ref_cells: Vec<Vec<u8>> = (0..3).map(|k| ref_cell(k, &name_types[k])).collect();
+    let table = TableSpec::owned("ks".into(), "t".into());
+    // all column-name sequences of length 1..4
+    let mut lists: Vec<Vec<usize>> = Vec::new();
+    let mut layer: Vec<Vec<usize>> = vec![vec![]];
+    for _ in 0..4 {
+        let mut next = Vec::new();
+        for p in &layer {
+            for c in 0..3 {
+                let mut q = p.clone();
+                q.push(c);
+                next.push(q);
+            }
+        }
+        lists.extend(next.iter().cloned());
+        layer = next;
+    }
+    r.counters.add("named_row_column_lists", lists.len() as u64);
+    let mut accepted_ok = 0u64;
+    let mut refused_ok = 0u64;
+    for cols in &lists {
+        let specs: Vec<ColumnSpec<'static>> = cols.iter().map(|c| ColumnSpec::owned(names[*c].to_string(), column_type(&name_types[*c]), table.clone())).collect();
+        let ctx = RowSerializationContext::from_specs(&specs);
+        let mut distinct: Vec<usize> = cols.clone();
+        distinct.sort();
+        distinct.dedup();
+        // key sets: (label, keys as (name, cell), must accept)
+        let mut keysets: Vec<(String, Vec<(String, RowCell)>, bool)> = Vec::new();
+        let exact: Vec<(String, RowCell)> = distinct.iter().map(|k| (names[*k].to_string(), name_vals[*k].clone())).collect();
+        keysets.push(("exact".into(), exact.clone(), true));
+        // surplus: a key that names no column - a foreign name, and each declared-elsewhere name not among the columns
+        let mut s1 = exact.clone();
+        s1.push(("w".to_string(), MaybeUnset::Set(Some(CqlValue::Int(9)))));
+        keysets.push(("surplus:w".into(), s1, false));
+        for k in 0..3 {
+            if !distinct.contains(&k) {
+                let mut s2 = exact.clone();
+                s2.push((names[k].to_string(), name_vals[k].clone()));
+                keysets.push((format!("surplus:{}", names[k]), s2, false));
+            }
+        }
+        for k in &distinct {
+            let m: Vec<(String, RowCell)> = exact.iter().filter(|(n, _)| n != names[*k]).cloned().collect();
+            keysets.push((format!("missing:{}", names[*k]), m, false));
+        }
+        for (label, keys, must_accept) in &keysets {
+            let bs: BTreeMap<String, RowCell> = keys.iter().cloned().collect();
+            let hs: HashMap<String, RowCell> = keys.iter().cloned().collect();
+            let br: BTreeMap<&str, RowCell> = keys.iter().map(|(n, c)| (n.as_str(), c.clone())).collect();
+            let hr: HashMap<&str, RowCell> = keys.iter().map(|(n, c)| (n.as_str(), c.clone())).collect();
+            let runs: Vec<(&str, Result<Result<SerializedValues, SerializationError>, String>)> = vec![
+                ("BTreeMap<String,T>", catch(AssertUnwindSafe(|| SerializedValues::from_serializable(&ctx, &bs)))),
+                ("HashMap<String,T>", catch(AssertUnwindSafe(|| SerializedValues::from_serializable(&ctx, &hs)))),
+                ("BTreeMap<&str,T>", catch(AssertUnwindSafe(|| SerializedValues::from_serializable(&ctx, &br)))),
+                ("HashMap<&str,T>", catch(AssertUnwindSafe(|| SerializedValues::from_serializable(&ctx, &hr)))),
+            ];
+            for (form, res) in runs {
+                r.eval(1);
+                let case = || json!({"leg": "rows", "part": "named-rows", "form": form, "columns": cols.iter().map(|c| names[*c]).collect::<Vec<_>>(), "keys": label});
+                let kind = label.split(':').next().unwrap_or("");
+                match res {
+                    Err(p) => r.violation(&format!("rows:named:panic:{form}"), &format!("named row ({label}) for columns {:?} panicked: {p}", cols.iter().map(|c| names[*c]).collect::<Vec<_>>()), case()),
+                    Ok(Err(e)) => {
+                        if *must_accept {
+                            r.violation(&format!("rows:named:exact-keys-refused:{form}"), &format!("a row naming exactly the columns {:?} was refused: {e}", cols.iter().map(|c| names[*c]).collect::<Vec<_>>()), case());
+                        } else {
+                            refused_ok += 1;
+                        }
+                    }
+                    Ok(Ok(sv)) => {
+                        if !*must_accept {
+                            r.violation(
+                                &format!("rows:named:{kind}-key-accepted:{form}"),
+                                &format!("columns {:?}, row keys {:?} ({label}): accepted with {} cells; a value that names no column is dropped / a column has no value", cols.iter().map(|c| names[*c]).collect::<Vec<_>>(), keys.iter().map(|(n, _)| n.as_str()).collect::<Vec<_>>(), sv.element_count()),
+                                case(),
+                            );
+                            continue;
+                        }
+                        let snap = snapshot(&sv);
+                        let mut expect = Vec::new();
+                        for c in cols {
+                            expect.extend_from_slice(&ref_cells[*c]);
+                        }
+                        if snap.count as usize != cols.len() || snap.iterated.len() != cols.len() || snap.bytes[2..] != expect[..] {
+                            r.violation(&format!("rows:named:count-or-bytes:{form}"), &format!("columns {:?}: element_count={}, cells={}, bytes differ from the value at every occurrence", cols.iter().map(|c| names[*c]).collect::<Vec<_>>(), snap.count, snap.iterated.len()), case());
+                        } else {
+                            accepted_ok += 1;
+                        }
+                    }
+                }
+            }
+        }
+    }
+    r.counters.add("named_rows_accepted_and_verified", accepted_ok);
+    r.counters.add("named_rows_refused_as_required", refused_ok);
+    r.nontrivial(accepted_ok + refused_ok);
+}
+
 pub fn run_rows(r: &Report) {
     run_count_boundary(r);
+    run_named_rows(r);
     run_row_decode_matrix(r);
     run_writer_compositions(r);
     let col_types = [t_int(), t_text(), list_of(t_int())];
@@ -1321,7 +1534,7 @@ pub fn run_rows(r: &Report) {
             }
         }
     });
-    r.set_rule("E-ENUM rows. Every column list of length 0..3 over {int, text, list<int>} x every value list of length 0..3 over {int, text, list<int>, a list whose 2nd element is text, null, not-set} (equal arity: all; arity off by one: all-int values) bound as Vec<T>, &[T], Rust tuple, HashMap<String,T> and BTreeMap<&str,T> (right names, one wrong name, one extra name) through SerializedValues::from_serializable: accepted iff every value fits its column and arity/names match; on success element_count() == iter().count() == number of columns and the bytes are the concatenated reference cells. Value-count boundary: {65534, 65535, 65536, 65537, 131072} int values through from_serializable over Vec, slice, HashMap<String,_>, BTreeMap<&str,_> with a matching context of that many columns, from_closure (cell by cell; appending an existing list), and an add_value loop: refused (only above 65535, list unchanged) or element_count() == iter().count() == count on the wire == number bound. RowWriter compositions: every order of {one cell via make_cell_writer, append_serialize_row of a pre-serialized list of 0..3 cells} with at most three cells and three appends, plus 20 boundary sums around 65535 (40000+25535, 40000+25536, 40000+40000, cell+65535, ...), through RowWriter directly (value_count() == encoded cells == bound) and through from_closure (refused only above 65535, else element_count() == iter().count() == count on the wire == bound). Read side: DeserializeRow::type_check + deserialize for Rust tuples of arity 0..4 (21 carriers) and the dynamic Row type against every column list of length 0..5 over {int, text, list<int>}: a tuple must be refused when the column count differs or a field does not fit, a fitting row is read back as bound, and reading never panics (also with a null first column). distinct_nontrivial = accepted rows verified + boundary cases, compositions and read-side cells decided.");
+    r.set_rule("E-ENUM rows. Every column list of length 0..3 over {int, text, list<int>} x every value list of length 0..3 over {int, text, list<int>, a list whose 2nd element is text, null, not-set} (equal arity: all; arity off by one: all-int values) bound as Vec<T>, &[T], Rust tuple, HashMap<String,T> and BTreeMap<&str,T> (right names, one wrong name, one extra name) through SerializedValues::from_serializable: accepted iff every value fits its column and arity/names match; on success element_count() == iter().count() == number of columns and the bytes are the concatenated reference cells. Value-count boundary: {65534, 65535, 65536, 65537, 131072} int values through from_serializable over Vec, slice, HashMap<String,_>, BTreeMap<&str,_> with a matching context of that many columns, from_closure (cell by cell; appending an existing list), and an add_value loop: refused (only above 65535, list unchanged) or element_count() == iter().count() == count on the wire == number bound. RowWriter compositions: every order of {one cell via make_cell_writer, append_serialize_row of a pre-serialized list of 0..3 cells} with at most three cells and three appends, plus 20 boundary sums around 65535 (40000+25535, 40000+25536, 40000+40000, cell+65535, ...), through RowWriter directly (value_count() == encoded cells == bound) and through from_closure (refused only above 65535, else element_count() == iter().count() == count on the wire == bound). Named rows: BTreeMap/HashMap with String and &str keys against all 120 column-name sequences of length 1..4 over {x:int, y:text, z:list<int>} (names repeat up to 4 times) x key sets {exact, one surplus key (foreign name; a name not among the columns), one missing key}: surplus/missing must be refused, exact rows carry the value at every occurrence. Read side: DeserializeRow::type_check + deserialize for Rust tuples of arity 0..4 (21 carriers) and the dynamic Row type against every column list of length 0..5 over {int, text, list<int>}: a tuple must be refused when the column count differs or a field does not fit, a fitting row is read back as bound, and reading never panics (also with a null first column). distinct_nontrivial = accepted rows verified + boundary cases, compositions and read-side cells decided.");
     r.set_exhaustive(true);
     r.sample(json!({"columns": ["int", "list<int>"], "row": "HashMap<String,_> {c1: [1,2], c0: 7}", "expected": "accepted; 2 cells; bytes = reference cells in column order"}));
     r.sample(json!({"columns": ["int", "text"], "row": "(7, [1, 'x'])", "expected": "refused"}));
@@ -1333,6 +1546,12 @@ pub fn replay(r: &Report, case: &serde_json::Value) {
         Some("matrix") => {
             let t = refv::parse_type(case["type"].as_str().unwrap_or("")).unwrap_or_else(|e| vcore::machinery_error(&format!("replay: bad type {e}")));
             let mode = case["frozen"].as_u64().unwrap_or(0) as u8;
+            if case["part"].as_str() == Some("empty") {
+                println!("replaying the empty-value cells of column type {t} (expected {:?})", empty_rel(&t));
+                let st3: [AtomicU64; 3] = Default::default();
+                with_frozen(mode, || empty_cells(r, &t, &st3));
+                return;
+            }
             let ct = with_frozen(mode, || column_type(&t));
             let st = MatrixStats { cells: Default::default(), de_cells: Default::default() };
             if let Some(vt) = case["dyn_value_type"].as_str() {
